@@ -441,7 +441,9 @@ impl Assembler {
                 }
             }
         }
-        if self.symbols.assembler!=MerlinVersion::Merlin8 {
+        // The 65802 is only reachable from Merlin 8, which has no address prefixes, so the `L` suffix
+        // is the only way to write the long addressing modes that the disassembler emits for it.
+        if self.symbols.assembler!=MerlinVersion::Merlin8 || self.symbols.processor==ProcessorType::_65802 {
             if suffix.len() > 0 && (suffix == "l" || suffix == "L") {
                 end = 3;
             }
